@@ -27,7 +27,7 @@ pub fn at_discontinuity(fl: &Flags, x: f64, kind: &str) -> R<()> {
 /// large exponents, circular functions of large arguments): outside what a fixed tolerance can decide
 pub fn amplifies(fl: &Flags, magnitude: f64) -> R<()> {
     if fl.scope_only.get() { return Ok(()); }
-    if fl.tol.get() > 0.0 && !(magnitude.abs() <= 1e3) { Err(Stop::Unspec("ErrorAmplificationAfterInexactOperation")) } else { Ok(()) }
+    if fl.tol.get() > 0.0 && !(magnitude.abs() <= 1e2) { Err(Stop::Unspec("ErrorAmplificationAfterInexactOperation")) } else { Ok(()) }
 }
 
 /// an inexact (tolerance-checked) result at the edge of the double range: one side may be inf, the other just below MAX
@@ -46,6 +46,8 @@ impl F64Sem {
 pub fn factorial_f64(x: f64, fl: &Flags) -> R<f64> {
     if x.is_nan() { return Err(Stop::Unspec("FactorialOfNaN")); }
     at_discontinuity(fl, x, "int")?;
+    // Gamma amplifies the relative error of its argument by about x ln x
+    if fl.tol.get() > 0.0 && !fl.scope_only.get() && !(x.abs() <= 30.0) { return Err(Stop::Unspec("ErrorAmplificationAfterInexactOperation")); }
     if x >= 0.0 && x.fract() == 0.0 {
         if x > 170.0 { return Ok(f64::INFINITY); }
         let n = x as u64;
